@@ -116,6 +116,14 @@ func checkRing(c *mc.Ctx, box orb.Bound, ring orb.Ring, what string) orb.Ring {
 	if g2 := clip.Ring(box, orb.Ring(refgeom.Spare(ring))); shift == (orb.Point{}) && !bitsEq(g2, got) {
 		c.Failf("layout-dependent", "the ring with spare capacity behind it clips to %v | %s", g2, desc())
 	}
+	// the same problem scaled by a power of two (exact in float64) must clip to the bit-for-bit scaled ring
+	if shift == (orb.Point{}) {
+		for _, k := range []float64{1024, 1.0 / 64} {
+			if gs := clip.Ring(refgeom.ScaleBound(box, k), refgeom.Scale(ring, k).(orb.Ring)); !refgeom.Equal(gs, refgeom.Scale(got, k)) {
+				c.Failf("scaling", "scaled by %v the ring clips to %v | %s", k, gs, desc())
+			}
+		}
+	}
 	if got != nil && len(got) == 0 {
 		c.Failf("empty-not-nil", "empty result must be nil | %s", desc())
 	}
